@@ -66,6 +66,10 @@ func (g *gate) die(mode string) {
 		g.rec.Exit = 7
 		appendLog(*g.rec)
 		os.Exit(7)
+	case "pipe":
+		g.rec.Exit = 128 + 13
+		appendLog(*g.rec)
+		dieBySIGPIPE()
 	default:
 		g.rec.Exit = 128
 		appendLog(*g.rec)
